@@ -756,11 +756,1346 @@ pub mod sparse {
     }
 }
 
+// ===========================================================================
+// LARGE-SCALE sub-checks (C19/large-*): the same statements on inputs whose sizes cross the ladder
+// 255/256/257 .. 2^20+1. Cases are small parameter records expanded deterministically (splitmix64).
+// Oracles are near-linear: sort-grouping of q-grams / k-mers, dense per-diagonal arrays, an
+// O(n log n) LCSk++ recurrence over a BTreeMap staircase (cross-checked against the quadratic
+// recurrence of `sparse::lcskpp_optimum` whenever the list is short enough).
+
+pub mod large {
+    use super::*;
+    use crate::oracles::scale::*;
+    use crate::{c1920_bands, c1920_over};
+    use bio::alphabets::{Alphabet, RankTransform};
+    use std::collections::{HashMap, HashSet};
+
+    pub fn add_band(pass: &mut Pass, labels: &[&'static str; 12], v: usize) {
+        if let Some(b) = c1920_band(v) {
+            pass.add(labels[b]);
+        }
+    }
+    pub fn add_over(pass: &mut Pass, labels: &[&'static str; 4], v: usize) {
+        for (i, t) in C1920_OVER.iter().enumerate() {
+            if v > *t {
+                pass.add(labels[i]);
+            }
+        }
+    }
+
+    /// alphabet of `sigma` distinct bytes: with stride 0 the letters a, b, .. (sigma <= 26) or the bytes
+    /// 0, 1, .. ; otherwise off + j*stride (stride odd, so the bytes are distinct and not in rank order)
+    #[derive(Serialize, Deserialize, Debug, Clone)]
+    pub struct Alpha {
+        pub sigma: usize,
+        pub off: u8,
+        pub stride: u8,
+    }
+
+    impl Alpha {
+        pub fn sorted(&self) -> Result<Vec<u8>, Stop> {
+            ensure!(self.sigma >= 1 && self.sigma <= 256, "harness: alphabet size {}", self.sigma);
+            ensure!(self.stride == 0 || self.stride % 2 == 1, "harness: even stride");
+            let mut v: Vec<u8> = if self.stride == 0 {
+                let base = if self.sigma <= 26 { b'a' } else { 0 };
+                (0..self.sigma).map(|j| base.wrapping_add(j as u8)).collect()
+            } else {
+                (0..self.sigma).map(|j| self.off.wrapping_add((j as u8).wrapping_mul(self.stride))).collect()
+            };
+            v.sort_unstable();
+            v.dedup();
+            ensure!(v.len() == self.sigma, "harness: alphabet bytes not distinct");
+            Ok(v)
+        }
+    }
+
+    /// `pal` ranks spread over 0..sigma starting at `lo`
+    fn palette(sorted: &[u8], pal: usize, lo: usize) -> Vec<u8> {
+        let sigma = sorted.len();
+        let lo = lo.min(sigma - 1);
+        let avail = sigma - lo;
+        let pal = pal.clamp(1, avail);
+        if pal == 1 {
+            return vec![sorted[lo + avail / 2]];
+        }
+        (0..pal).map(|j| sorted[lo + j * (avail - 1) / (pal - 1)]).collect()
+    }
+
+    #[derive(Serialize, Deserialize, Debug, Clone)]
+    pub enum Base {
+        /// uniform over `pal` symbols spread over the ranks lo..sigma
+        Random { pal: usize, lo: usize },
+        /// a random unit of `period` symbols (over `pal` symbols) repeated: short tandem repeat
+        Periodic { period: usize, pal: usize },
+        /// ranks 0,1,..,sigma-1,0,1,..
+        Ascending,
+        /// ranks sigma-1,..,0,sigma-1,..
+        Descending,
+        Homopolymer { rank: usize },
+    }
+
+    #[derive(Serialize, Deserialize, Debug, Clone)]
+    pub enum Overlay {
+        /// a run of one symbol written over the text
+        Run { at: usize, len: usize, rank: usize },
+        /// text[from..from+len] copied over text[to..to+len]
+        Copy { from: usize, to: usize, len: usize },
+    }
+
+    #[derive(Serialize, Deserialize, Debug, Clone)]
+    pub struct TextSpec {
+        pub n: usize,
+        pub base: Base,
+        pub overlays: Vec<Overlay>,
+        pub seed: u64,
+    }
+
+    impl TextSpec {
+        pub fn build(&self, sorted: &[u8]) -> Vec<u8> {
+            let sigma = sorted.len();
+            let n = self.n;
+            let mut rng = C1920Rng::new(self.seed);
+            let mut t: Vec<u8> = match &self.base {
+                Base::Random { pal, lo } => rng.fill(&palette(sorted, *pal, *lo), n),
+                Base::Periodic { period, pal } => {
+                    let unit = rng.fill(&palette(sorted, *pal, 0), (*period).max(1));
+                    (0..n).map(|i| unit[i % unit.len()]).collect()
+                }
+                Base::Ascending => (0..n).map(|i| sorted[i % sigma]).collect(),
+                Base::Descending => (0..n).map(|i| sorted[sigma - 1 - i % sigma]).collect(),
+                Base::Homopolymer { rank } => vec![sorted[rank % sigma]; n],
+            };
+            for o in &self.overlays {
+                match *o {
+                    Overlay::Run { at, len, rank } => {
+                        let at = at.min(n);
+                        let len = len.min(n - at);
+                        for x in &mut t[at..at + len] {
+                            *x = sorted[rank % sigma];
+                        }
+                    }
+                    Overlay::Copy { from, to, len } => {
+                        let from = from.min(n);
+                        let to = to.min(n);
+                        let len = len.min(n - from).min(n - to);
+                        let seg = t[from..from + len].to_vec();
+                        t[to..to + len].copy_from_slice(&seg);
+                    }
+                }
+            }
+            t
+        }
+    }
+
+    // -----------------------------------------------------------------------
+    // C19/large-codes: RankTransform::qgrams / rev_qgrams on long texts
+
+    pub mod codes {
+        use super::*;
+
+        #[derive(Serialize, Deserialize, Debug, Clone)]
+        pub struct Case {
+            pub alpha: Alpha,
+            pub q: u32,
+            pub text: TextSpec,
+        }
+
+        pub fn check(c: &Case) -> R {
+            let sorted = c.alpha.sorted()?;
+            let sigma = sorted.len();
+            let bits = bits_for(sigma);
+            let q = c.q as usize;
+            ensure!(q >= 1 && bits * c.q <= usize::BITS, "harness: q={} with {} bits per symbol exceeds the word", q, bits);
+            let text = c.text.build(&sorted);
+            let n = text.len();
+            let alphabet = Alphabet::new(&sorted);
+            ensure!(alphabet.len() == sigma, "harness: Alphabet::new kept {} of {} symbols", alphabet.len(), sigma);
+            let ranks = RankTransform::new(&alphabet);
+            let count = (n + 1).saturating_sub(q);
+            let fwd: Vec<usize> = ranks.qgrams(c.q, &text).take(n + 2).collect();
+            ensure!(fwd.len() == count, "|A|={} q={} text of length {}: qgrams() yields {} codes, the text has {} q-grams", sigma, q, n, fwd.len(), count);
+            // an injective encoding of our own: base-|A| numbers of the ranks (|A|^q <= 2^(q*bits) <= 2^64)
+            let mut rank_of = [0u64; 256];
+            for (r, &b) in sorted.iter().enumerate() {
+                rank_of[b as usize] = r as u64;
+            }
+            let top: u128 = (sigma as u128).pow(c.q - 1);
+            let mut own: Vec<u64> = Vec::with_capacity(count);
+            let mut cur: u128 = 0;
+            for (i, &b) in text.iter().enumerate() {
+                cur = (cur % top) * sigma as u128 + rank_of[b as usize] as u128;
+                if i + 1 >= q {
+                    own.push(cur as u64);
+                }
+            }
+            // equal code <=> equal q-gram
+            let mut lib2own: HashMap<usize, (u64, usize)> = HashMap::new();
+            let mut own2lib: HashMap<u64, (usize, usize)> = HashMap::new();
+            for i in 0..count {
+                let e = lib2own.entry(fwd[i]).or_insert((own[i], i));
+                ensure!(
+                    e.0 == own[i],
+                    "|A|={} q={} text of length {} ({:?}): the different q-grams at positions {} ({:?}) and {} ({:?}) share the code {}",
+                    sigma, q, n, c.text, e.1, B(text[e.1..e.1 + q].to_vec()), i, B(text[i..i + q].to_vec()), fwd[i]
+                );
+                let e = own2lib.entry(own[i]).or_insert((fwd[i], i));
+                ensure!(
+                    e.0 == fwd[i],
+                    "|A|={} q={} text of length {} ({:?}): the q-gram {:?} got code {} at position {} and code {} at position {}",
+                    sigma, q, n, c.text, B(text[i..i + q].to_vec()), e.0, e.1, fwd[i], i
+                );
+            }
+            // a q-gram taken alone gets the same code as inside the text (sampled positions)
+            let mut rng = C1920Rng::new(c.text.seed ^ 0xc0de);
+            for i in c1920_sample_positions(count, 24, &mut rng) {
+                let alone: Vec<usize> = ranks.qgrams(c.q, &text[i..i + q]).take(3).collect();
+                ensure!(alone == vec![fwd[i]], "|A|={} q={}: q-gram {:?} alone has code(s) {:?}, at position {} of the text ({:?}) code {}", sigma, q, B(text[i..i + q].to_vec()), alone, i, c.text, fwd[i]);
+            }
+            let rev: Vec<usize> = ranks.rev_qgrams(c.q, &text).take(n + 2).collect();
+            ensure!(rev.len() == count, "|A|={} q={} text of length {}: rev_qgrams() yields {} codes, qgrams() {}", sigma, q, n, rev.len(), count);
+            if let Some(i) = (0..count).find(|&i| rev[count - 1 - i] != fwd[i]) {
+                crate::fail!("|A|={} q={} text of length {} ({:?}): rev_qgrams() reversed differs from qgrams() at q-gram {}: {} vs {}", sigma, q, n, c.text, i, rev[count - 1 - i], fwd[i]);
+            }
+            let distinct = own2lib.len();
+            let mut pass = Pass::new(distinct >= 2 && n >= 255);
+            add_band(&mut pass, &c1920_bands!("text length"), n);
+            add_over(&mut pass, &c1920_over!("distinct q-grams"), distinct);
+            pass.add_if(bits * c.q == 64, "q*bits = 64");
+            pass.add_if(bits * c.q == 32, "q*bits = 32");
+            pass.add_if(bits * c.q == 16, "q*bits = 16");
+            pass.add_if(bits * c.q > 32 && bits * c.q < 64, "q*bits in 33..63");
+            pass.add_if(sigma == 256, "|A|=256");
+            pass.add_if(sigma == 1, "|A|=1");
+            pass.add_if(!sigma.is_power_of_two(), "|A| not a power of two");
+            pass.add_if(matches!(c.text.base, Base::Homopolymer { .. }), "homopolymer");
+            pass.add_if(matches!(c.text.base, Base::Periodic { .. }), "tandem repeat");
+            pass.add_if(matches!(c.text.base, Base::Ascending | Base::Descending), "ascending/descending cycle");
+            Ok(pass)
+        }
+
+        pub fn cases(t: Tier, seed: u64) -> Vec<Case> {
+            let mut out = Vec::new();
+            let reps = if t == Tier::Quick { 1 } else { 6 };
+            for rep in 0..reps {
+                for (li, &v) in c1920_ladder().iter().enumerate() {
+                    let mut rng = C1920Rng::new(seed ^ ((rep as u64) << 32) ^ (li as u64 * 0x9e37) ^ 0xc19c0de5);
+                    // (sigma, q): word-filling, 32-bit, 16-bit and odd combinations
+                    let combos: [(usize, u32); 12] = [(2, 64), (4, 32), (16, 16), (256, 8), (3, 32), (37, 10), (5, 21), (256, 4), (4, 8), (2, 16), (1, 70), (200, 2)];
+                    let (sigma, q) = combos[(li + rep * 5) % combos.len()];
+                    let base = match (li + rep) % 5 {
+                        0 => Base::Random { pal: sigma, lo: 0 },
+                        1 => Base::Periodic { period: 2 + rng.below(9), pal: sigma.min(4) },
+                        2 => Base::Ascending,
+                        3 => Base::Homopolymer { rank: rng.below(sigma) },
+                        _ => Base::Random { pal: 2, lo: 0 },
+                    };
+                    let alpha = if sigma == 256 || rng.below(3) == 0 { Alpha { sigma, off: 0, stride: 0 } } else { Alpha { sigma, off: rng.next() as u8, stride: (rng.below(128) * 2 + 1) as u8 } };
+                    out.push(Case { alpha, q, text: TextSpec { n: v, base, overlays: vec![], seed: rng.next() } });
+                }
+            }
+            out
+        }
+    }
+
+    // -----------------------------------------------------------------------
+    // C19/large-index: QGramIndex on long texts, long patterns, dense hits
+
+    pub mod index {
+        use super::*;
+        use bio::data_structures::qgram_index::QGramIndex;
+
+        #[derive(Serialize, Deserialize, Debug, Clone)]
+        pub enum PatBase {
+            /// text[at..at+len]
+            FromText { at: usize, len: usize },
+            Random { len: usize, pal: usize },
+            Homopolymer { len: usize, rank: usize },
+        }
+
+        #[derive(Serialize, Deserialize, Debug, Clone)]
+        pub struct PatSpec {
+            pub base: PatBase,
+            /// every `subs_every`-th symbol is replaced by the next symbol of the alphabet (0 = never)
+            pub subs_every: usize,
+            pub seed: u64,
+        }
+
+        impl PatSpec {
+            pub fn build(&self, sorted: &[u8], text: &[u8]) -> Vec<u8> {
+                let sigma = sorted.len();
+                let mut rng = C1920Rng::new(self.seed);
+                let mut p: Vec<u8> = match self.base {
+                    PatBase::FromText { at, len } => {
+                        let at = at.min(text.len());
+                        let len = len.min(text.len() - at);
+                        text[at..at + len].to_vec()
+                    }
+                    PatBase::Random { len, pal } => rng.fill(&palette(sorted, pal, 0), len),
+                    PatBase::Homopolymer { len, rank } => vec![sorted[rank % sigma]; len],
+                };
+                if self.subs_every > 0 {
+                    let mut j = self.subs_every - 1;
+                    while j < p.len() {
+                        let r = sorted.binary_search(&p[j]).unwrap();
+                        p[j] = sorted[(r + 1) % sigma];
+                        j += self.subs_every;
+                    }
+                }
+                p
+            }
+        }
+
+        #[derive(Serialize, Deserialize, Debug, Clone, PartialEq)]
+        pub enum Bound {
+            /// max_count only: no limit (QGramIndex::new)
+            None,
+            Abs(usize),
+            /// the largest value present (occurrences of one q-gram in the text / unmasked hits on one
+            /// diagonal) - 1 + d
+            NearTop(usize),
+        }
+
+        #[derive(Serialize, Deserialize, Debug, Clone)]
+        pub struct Case {
+            pub alpha: Alpha,
+            pub q: u32,
+            pub text: TextSpec,
+            pub pattern: PatSpec,
+            pub max_count: Bound,
+            pub min_count: Bound,
+            /// build the index from `text.iter()` instead of the slice
+            pub via_iter: bool,
+            /// additionally send the index through serde (JSON) and query the restored copy
+            pub serde: bool,
+        }
+
+        /// (pattern.start, pattern.stop, text.start, text.stop)
+        type Iv = (usize, usize, usize, usize);
+
+        const HIT_CAP: u64 = 8_000_000;
+
+        fn diff<T: std::fmt::Debug + PartialEq>(got: &[T], want: &[T]) -> String {
+            let i = (0..got.len().min(want.len())).find(|&i| got[i] != want[i]).unwrap_or(got.len().min(want.len()));
+            format!(
+                "{} entries returned, {} expected; first difference at sorted rank {}: returned {:?}, expected {:?}",
+                got.len(), want.len(), i, got.get(i), want.get(i)
+            )
+        }
+
+        pub fn check(c: &Case) -> R {
+            let sorted = c.alpha.sorted()?;
+            let sigma = sorted.len();
+            let bits = bits_for(sigma);
+            let q = c.q as usize;
+            ensure!(q >= 1 && bits * c.q <= 24, "harness: q={} with {} bits per symbol: table too large for this sub-check", q, bits);
+            ensure!(c.min_count != Bound::None && c.min_count != Bound::Abs(0), "harness: min_count must be >= 1");
+            let text = c.text.build(&sorted);
+            let pattern = c.pattern.build(&sorted, &text);
+            let (n, m) = (text.len(), pattern.len());
+            ensure!(n + m < (1 << 28), "harness: sizes");
+            let alphabet = Alphabet::new(&sorted);
+            let ranks = RankTransform::new(&alphabet);
+            let mut rank_of = [0u64; 256];
+            for (r, &b) in sorted.iter().enumerate() {
+                rank_of[b as usize] = r as u64;
+            }
+            let top = (sigma as u64).pow(c.q - 1);
+            let own_codes = |s: &[u8]| -> Vec<u64> {
+                let mut v = Vec::with_capacity((s.len() + 1).saturating_sub(q));
+                let mut cur = 0u64;
+                for (i, &b) in s.iter().enumerate() {
+                    cur = (cur % top) * sigma as u64 + rank_of[b as usize];
+                    if i + 1 >= q {
+                        v.push(cur);
+                    }
+                }
+                v
+            };
+            let ctx = format!("|A|={} q={} text {:?} (length {}) pattern {:?} (length {}) max_count {:?} min_count {:?}", sigma, q, c.text, n, c.pattern, m, c.max_count, c.min_count);
+
+            // ---- our own position lists: q-gram positions sorted by (q-gram, position)
+            let tcodes = own_codes(&text);
+            let cnt = tcodes.len();
+            let mut order: Vec<u32> = (0..cnt as u32).collect();
+            order.sort_unstable_by_key(|&i| (tcodes[i as usize], i));
+            let mut gkey: Vec<u64> = Vec::new();
+            let mut gstart: Vec<u32> = Vec::new();
+            for (r, &i) in order.iter().enumerate() {
+                if r == 0 || tcodes[i as usize] != tcodes[order[r - 1] as usize] {
+                    gkey.push(tcodes[i as usize]);
+                    gstart.push(r as u32);
+                }
+            }
+            gstart.push(cnt as u32);
+            let groups = gkey.len();
+            let top_occ = (0..groups).map(|g| (gstart[g + 1] - gstart[g]) as usize).max().unwrap_or(0);
+            let max_count = match c.max_count {
+                Bound::None => usize::MAX,
+                Bound::Abs(v) => v,
+                Bound::NearTop(d) => (top_occ + d).saturating_sub(1),
+            };
+            fn lookup<'a>(gkey: &[u64], gstart: &[u32], order: &'a [u32], code: u64) -> &'a [u32] {
+                match gkey.binary_search(&code) {
+                    Ok(g) => &order[gstart[g] as usize..gstart[g + 1] as usize],
+                    Err(_) => &[],
+                }
+            }
+            let positions = |code: u64| lookup(&gkey, &gstart, &order, code);
+
+            // ---- the hits the pattern will produce; refuse (as a skipped case) what would be too expensive
+            let pcodes = own_codes(&pattern);
+            let mut total_hits: u64 = 0;
+            for &pc in &pcodes {
+                let occ = positions(pc).len();
+                if occ <= max_count {
+                    total_hits += occ as u64;
+                }
+            }
+            if total_hits > HIT_CAP {
+                return Ok(Pass::new(false).class("skipped: more hits than the budget of this sub-check"));
+            }
+
+            // ---- build
+            let index = match (&c.max_count, c.via_iter) {
+                (Bound::None, false) => QGramIndex::new(c.q, &text[..], &alphabet),
+                (Bound::None, true) => QGramIndex::new(c.q, text.iter(), &alphabet),
+                (_, false) => QGramIndex::with_max_count(c.q, &text[..], &alphabet, max_count),
+                (_, true) => QGramIndex::with_max_count(c.q, text.iter(), &alphabet, max_count),
+            };
+            ensure!(index.q() == c.q, "q() = {} for an index built with q = {}", index.q(), c.q);
+            let restored: Option<QGramIndex> = if c.serde {
+                let js = serde_json::to_string(&index).map_err(|e| Stop::Fail(format!("{}: the index does not serialise: {}", ctx, e)))?;
+                let back: QGramIndex = serde_json::from_str(&js).map_err(|e| Stop::Fail(format!("{}: the serialised index does not deserialise: {}", ctx, e)))?;
+                Some(back)
+            } else {
+                None
+            };
+
+            // ---- qgram_matches for every q-gram of the text
+            let lib_codes: Vec<usize> = ranks.qgrams(c.q, &text).take(n + 2).collect();
+            ensure!(lib_codes.len() == cnt, "{}: qgrams() yields {} codes for {} q-grams", ctx, lib_codes.len(), cnt);
+            let mut seen_lib: HashSet<usize> = HashSet::with_capacity(groups);
+            let mut exceeded = false;
+            for g in 0..groups {
+                let pos = &order[gstart[g] as usize..gstart[g + 1] as usize];
+                let lib = lib_codes[pos[0] as usize];
+                if let Some(&j) = pos.iter().find(|&&j| lib_codes[j as usize] != lib) {
+                    crate::fail!("{}: the q-gram {:?} has code {} at position {} and code {} at position {}", ctx, B(text[j as usize..j as usize + q].to_vec()), lib, pos[0], lib_codes[j as usize], j);
+                }
+                ensure!(seen_lib.insert(lib), "{}: the q-gram {:?} (position {}) shares its code {} with a different q-gram", ctx, B(text[pos[0] as usize..pos[0] as usize + q].to_vec()), pos[0], lib);
+                let masked = pos.len() > max_count;
+                exceeded |= masked;
+                for ix in std::iter::once(&index).chain(restored.iter()) {
+                    let got = ix.qgram_matches(lib);
+                    let ok = if masked { got.is_empty() } else { got.len() == pos.len() && got.iter().zip(pos).all(|(a, b)| *a == *b as usize) };
+                    if !ok {
+                        let j = got.iter().zip(pos).position(|(a, b)| *a != *b as usize).unwrap_or(got.len().min(pos.len()));
+                        crate::fail!(
+                            "{}: qgram_matches(code {} of {:?}){} has {} entries, the q-gram occurs {} times in the text (effective max_count {}); first difference at entry {}: {:?} vs position {:?}",
+                            ctx, lib, B(text[pos[0] as usize..pos[0] as usize + q].to_vec()), if std::ptr::eq(ix, &index) { "" } else { " on the index restored through serde" },
+                            got.len(), pos.len(), max_count, j, got.get(j), pos.get(j)
+                        );
+                    }
+                }
+            }
+            // ---- and for random q-grams (mostly absent from the text when the code space is large)
+            let mut rng = C1920Rng::new(c.text.seed ^ c.pattern.seed ^ 0x9b0be);
+            let mut absent_probe = false;
+            for _ in 0..200 {
+                let g = rng.fill(&sorted, q);
+                let lib: Vec<usize> = ranks.qgrams(c.q, &g).take(3).collect();
+                ensure!(lib.len() == 1, "{}: qgrams() of the single q-gram {:?} yields {:?}", ctx, B(g.clone()), lib);
+                let pos = positions(own_codes(&g)[0]);
+                absent_probe |= pos.is_empty();
+                let masked = pos.len() > max_count;
+                let got = index.qgram_matches(lib[0]);
+                let ok = if masked { got.is_empty() } else { got.len() == pos.len() && got.iter().zip(pos).all(|(a, b)| *a == *b as usize) };
+                ensure!(ok, "{}: qgram_matches(code {} of the probe {:?}) has {} entries {:?}.., the q-gram occurs {} times in the text (effective max_count {})", ctx, lib[0], B(g.clone()), got.len(), &got[..got.len().min(4)], pos.len(), max_count);
+            }
+
+            // ---- per diagonal: first / last hit, number of hits, maximal runs of consecutive hits
+            let nd = n + m + 1;
+            let mut first_i = vec![u32::MAX; nd];
+            let mut last_i = vec![0u32; nd];
+            let mut count = vec![0u32; nd];
+            let mut run_start = vec![0u32; nd];
+            let mut touched: Vec<u32> = Vec::new();
+            let mut want_e: Vec<Iv> = Vec::new();
+            let emit = |want_e: &mut Vec<Iv>, d: usize, st: u32, en: u32| {
+                // diagonal index d = p + m - i
+                let (st, en) = (st as usize, en as usize + q);
+                want_e.push((st, en, st + d - m, en + d - m));
+            };
+            let mut below = false;
+            for (i, &pc) in pcodes.iter().enumerate() {
+                let pos = positions(pc);
+                if pos.len() > max_count {
+                    continue;
+                }
+                for &p in pos {
+                    let d = p as usize + m - i;
+                    below |= (p as usize) < i;
+                    if first_i[d] == u32::MAX {
+                        first_i[d] = i as u32;
+                        run_start[d] = i as u32;
+                        touched.push(d as u32);
+                    } else if last_i[d] + 1 != i as u32 {
+                        emit(&mut want_e, d, run_start[d], last_i[d]);
+                        run_start[d] = i as u32;
+                    }
+                    last_i[d] = i as u32;
+                    count[d] += 1;
+                }
+            }
+            let mut split_run = false;
+            let before = want_e.len();
+            for &d in &touched {
+                emit(&mut want_e, d as usize, run_start[d as usize], last_i[d as usize]);
+            }
+            split_run |= before > 0;
+            let top_diag = touched.iter().map(|&d| count[d as usize] as usize).max().unwrap_or(0);
+            let min_count = match c.min_count {
+                Bound::None => 1,
+                Bound::Abs(v) => v,
+                Bound::NearTop(d) => (top_diag + d).saturating_sub(1).max(1),
+            };
+            let mut want_m: Vec<(Iv, usize)> = Vec::new();
+            let mut filtered = false;
+            let mut gap_diag = false;
+            for &d in &touched {
+                let d = d as usize;
+                let (fi, li, ct) = (first_i[d] as usize, last_i[d] as usize, count[d] as usize);
+                gap_diag |= ct < li - fi + 1;
+                if ct >= min_count {
+                    want_m.push(((fi, li + q, fi + d - m, li + d - m + q), ct));
+                } else {
+                    filtered = true;
+                }
+            }
+            want_m.sort_unstable();
+            want_e.sort_unstable();
+
+            // ---- cross-check of the run oracle against a direct scan of the two sequences (small products only)
+            if c.max_count == Bound::None && (n as u64) * (m as u64) <= 1 << 22 {
+                let mut direct: Vec<Iv> = Vec::new();
+                let (mi, ti) = (m as i64, n as i64);
+                for d in -(mi - 1).max(0)..ti.max(1) {
+                    let mut i = (-d).max(0);
+                    while i < mi && i + d < ti {
+                        if pattern[i as usize] != text[(i + d) as usize] {
+                            i += 1;
+                            continue;
+                        }
+                        let st = i;
+                        while i < mi && i + d < ti && pattern[i as usize] == text[(i + d) as usize] {
+                            i += 1;
+                        }
+                        if (i - st) as usize >= q {
+                            direct.push((st as usize, i as usize, (st + d) as usize, (i + d) as usize));
+                        }
+                    }
+                }
+                direct.sort_unstable();
+                ensure!(direct == want_e, "harness: the run oracle and the direct scan disagree for {}: {}", ctx, diff(&want_e, &direct));
+            }
+
+            // ---- matches / exact_matches of the library
+            for ix in std::iter::once(&index).chain(restored.iter()) {
+                let tag = if std::ptr::eq(ix, &index) { "" } else { " (index restored through serde)" };
+                let mut got_m: Vec<(Iv, usize)> = ix.matches(&pattern, min_count).iter().map(|x| ((x.pattern.start, x.pattern.stop, x.text.start, x.text.stop), x.count)).collect();
+                got_m.sort_unstable();
+                ensure!(
+                    got_m == want_m,
+                    "{}: matches(pattern, {}){} as ((pattern.start, pattern.stop, text.start, text.stop), count): {} (expected: per diagonal with >= min_count hits the span from the first to the last hit and the number of hits; {} hits on {} diagonals)",
+                    ctx, min_count, tag, diff(&got_m, &want_m), total_hits, touched.len()
+                );
+                let em = ix.exact_matches(&pattern);
+                let mut got_e: Vec<Iv> = em.iter().map(|x| (x.pattern.start, x.pattern.stop, x.text.start, x.text.stop)).collect();
+                got_e.sort_unstable();
+                ensure!(
+                    got_e == want_e,
+                    "{}: exact_matches(pattern){} as (pattern.start, pattern.stop, text.start, text.stop): {} (expected: the maximal runs of consecutive unmasked q-gram hits on each diagonal, i.e. the maximal exact matches of length >= q)",
+                    ctx, tag, diff(&got_e, &want_e)
+                );
+                for x in em.iter().take(40) {
+                    ensure!(x.pattern.get(&pattern) == x.text.get(&text), "{}: exact match {:?}{}: Interval::get on pattern and text give different strings", ctx, x, tag);
+                }
+            }
+
+            let longest = want_e.iter().map(|e| e.1 - e.0).max().unwrap_or(0);
+            let mut pass = Pass::new(total_hits > 0 && (n > 255 || m > 255));
+            add_band(&mut pass, &c1920_bands!("text length"), n);
+            add_band(&mut pass, &c1920_bands!("pattern length"), m);
+            add_band(&mut pass, &c1920_bands!("occurrences of one q-gram"), top_occ);
+            add_band(&mut pass, &c1920_bands!("longest exact match"), longest);
+            add_band(&mut pass, &c1920_bands!("hits on one diagonal"), top_diag);
+            if max_count != usize::MAX {
+                add_band(&mut pass, &c1920_bands!("max_count"), max_count);
+                pass.add_if(top_occ == max_count + 1, "max_count = top occurrences - 1 (just masked)");
+                pass.add_if(top_occ == max_count, "max_count = top occurrences (just kept)");
+            }
+            add_band(&mut pass, &c1920_bands!("min_count"), min_count);
+            pass.add_if(min_count > 1 && top_diag == min_count, "min_count = top diagonal count (just kept)");
+            pass.add_if(min_count > 1 && top_diag + 1 == min_count, "min_count = top diagonal count + 1 (just filtered)");
+            add_over(&mut pass, &c1920_over!("distinct diagonals with hits"), touched.len());
+            add_over(&mut pass, &c1920_over!("hits"), total_hits as usize);
+            add_over(&mut pass, &c1920_over!("occurrences of one q-gram"), top_occ);
+            add_over(&mut pass, &c1920_over!("exact matches returned"), want_e.len());
+            add_over(&mut pass, &c1920_over!("distinct q-grams in the text"), groups);
+            for o in &c.text.overlays {
+                if let Overlay::Copy { from, to, len } = *o {
+                    if len >= q && to > from {
+                        add_band(&mut pass, &c1920_bands!("distance between two hit diagonals"), to - from);
+                    }
+                }
+            }
+            pass.add_if(bits * c.q == 16, "q*bits = 16");
+            pass.add_if(bits * c.q > 16 && bits * c.q <= 20, "q*bits in 17..20");
+            pass.add_if(bits * c.q > 20, "q*bits in 21..24");
+            pass.add_if(!sigma.is_power_of_two() && q >= 2, "|A| not a power of two, q>=2");
+            pass.add_if(sigma == 256, "|A|=256");
+            pass.add_if(sigma == 1, "|A|=1");
+            pass.add_if(exceeded, "max_count exceeded");
+            pass.add_if(below, "diagonal with text pos < pattern pos");
+            pass.add_if(split_run, "two exact matches on one diagonal");
+            pass.add_if(gap_diag, "matches: diagonal with a gap between hits");
+            pass.add_if(filtered, "min_count filters a diagonal");
+            pass.add_if(absent_probe, "probe of a q-gram that is absent from the text");
+            pass.add_if(c.via_iter, "index built from an iterator");
+            pass.add_if(c.serde, "index restored through serde");
+            pass.add_if(matches!(c.text.base, Base::Homopolymer { .. }), "homopolymer text");
+            pass.add_if(matches!(c.text.base, Base::Periodic { .. }), "tandem-repeat text");
+            pass.add_if(matches!(c.text.base, Base::Ascending | Base::Descending), "ascending/descending text");
+            Ok(pass)
+        }
+
+        /// rough cost for balancing the shards: text length, pattern length (hits grow with it), dense texts
+        pub fn cost(c: &Case) -> u64 {
+            let m = match c.pattern.base {
+                PatBase::FromText { len, .. } | PatBase::Random { len, .. } | PatBase::Homopolymer { len, .. } => len,
+            } as u64;
+            let dense = if bits_for(c.alpha.sigma) * c.q <= 6 || !matches!(c.text.base, Base::Random { .. }) { 3 } else { 1 };
+            c.text.n as u64 * dense + 6 * m.min(c.text.n as u64) + 2000
+        }
+
+        struct Mk {
+            rng: C1920Rng,
+        }
+
+        impl Mk {
+            fn alpha(&mut self, sigma: usize) -> Alpha {
+                if sigma == 256 || self.rng.below(3) == 0 {
+                    Alpha { sigma, off: 0, stride: 0 }
+                } else {
+                    Alpha { sigma, off: self.rng.next() as u8, stride: (self.rng.below(128) * 2 + 1) as u8 }
+                }
+            }
+            fn seed(&mut self) -> u64 {
+                self.rng.next() >> 11
+            }
+        }
+
+        pub fn cases(t: Tier, seed: u64) -> Vec<Case> {
+            let mut out: Vec<Case> = Vec::new();
+            let reps = if t == Tier::Quick { 1 } else { 5 };
+            let ladder = c1920_ladder();
+            for rep in 0..reps {
+                for (li, &v) in ladder.iter().enumerate() {
+                    let mut k = Mk { rng: C1920Rng::new(seed ^ ((rep as u64) << 40) ^ ((li as u64) << 20) ^ 0x1dec5) };
+                    let big = v > 140_000;
+                    // the heavy scenarios (million-symbol patterns, millions of hits) run for every ladder value up to
+                    // 131073; in the quick tier the bands 2^19 and 2^20 get one value above the power of two each
+                    let heavy_ok = !big || t == Tier::Thorough || v == (1 << 19) + 1 || v == (1 << 20) + 1;
+                    // patterns of 2^20 symbols (millions of hits through the library's hash map) cost several seconds
+                    // each: thorough tier only
+                    let long_pattern_ok = !big || t == Tier::Thorough || v == (1 << 19) + 1;
+                    let flip = |k: &mut Mk| k.rng.below(2) == 0;
+
+                    // (1) text length = v, dense: few symbols and q in 1..=2, so that (nearly) every diagonal is hit
+                    if !big {
+                        let sigma = 2 + k.rng.below(3);
+                        let q = 1 + k.rng.below(2) as u32;
+                        let len = 16 + k.rng.below(24);
+                        out.push(Case {
+                            alpha: k.alpha(sigma),
+                            q,
+                            text: TextSpec { n: v, base: Base::Random { pal: sigma, lo: 0 }, overlays: vec![], seed: k.seed() },
+                            pattern: PatSpec { base: PatBase::FromText { at: k.rng.below(v), len }, subs_every: [0, 5, 9][k.rng.below(3)], seed: k.seed() },
+                            max_count: Bound::None,
+                            min_count: Bound::Abs(1 + k.rng.below(3)),
+                            via_iter: flip(&mut k),
+                            serde: v <= 70_000 && flip(&mut k),
+                        });
+                    }
+                    // (2) text length = v over a 16..20-bit code space, pattern of ~300 symbols cut from the text,
+                    //     with a second copy of that stretch planted 2^j further right
+                    {
+                        let (sigma, q) = [(4usize, 8u32), (16, 4), (4, 10), (37, 3), (256, 2), (5, 6)][k.rng.below(6)];
+                        let plen = 300.min(v / 2);
+                        let at = k.rng.below(v - plen + 1);
+                        out.push(Case {
+                            alpha: k.alpha(sigma),
+                            q,
+                            text: TextSpec { n: v, base: Base::Random { pal: sigma, lo: 0 }, overlays: vec![], seed: k.seed() },
+                            pattern: PatSpec { base: PatBase::FromText { at, len: plen }, subs_every: [0, 0, 40, 101][k.rng.below(4)], seed: k.seed() },
+                            max_count: if flip(&mut k) { Bound::None } else { Bound::NearTop(k.rng.below(3)) },
+                            min_count: Bound::NearTop(k.rng.below(3)),
+                            via_iter: flip(&mut k),
+                            serde: false,
+                        });
+                    }
+                    // (3) pattern length = longest exact match = v (pattern cut from the text), and the same with
+                    //     a substitution every ~1000 symbols (many exact matches on one diagonal, gaps between hits)
+                    for subs in [0usize, 997 + k.rng.below(10)] {
+                        if !long_pattern_ok || (big && t == Tier::Quick && subs != 0) {
+                            continue;
+                        }
+                        let (sigma, q) = if v > 70_000 { [(16usize, 5u32), (4, 10), (32, 4)][k.rng.below(3)] } else { [(16usize, 4u32), (4, 8), (256, 2), (37, 3)][k.rng.below(4)] };
+                        let n = v + 700 + v / 3;
+                        out.push(Case {
+                            alpha: k.alpha(sigma),
+                            q,
+                            text: TextSpec { n, base: Base::Random { pal: sigma, lo: 0 }, overlays: vec![], seed: k.seed() },
+                            pattern: PatSpec { base: PatBase::FromText { at: k.rng.below(n - v + 1), len: v }, subs_every: subs, seed: k.seed() },
+                            max_count: Bound::None,
+                            min_count: Bound::NearTop(k.rng.below(3)),
+                            via_iter: false,
+                            serde: false,
+                        });
+                    }
+                    // (4) hits on one diagonal = min_count = v exactly (pattern of v+q-1 symbols cut from the text),
+                    //     and one fewer (the diagonal must disappear)
+                    for short in [0usize, 1] {
+                        if !long_pattern_ok {
+                            continue;
+                        }
+                        let (sigma, q) = if v > 70_000 { (16usize, 5u32) } else { (16usize, 4u32) };
+                        let plen = v + q as usize - 1 - short;
+                        let n = plen + 900 + v / 4;
+                        out.push(Case {
+                            alpha: k.alpha(sigma),
+                            q,
+                            text: TextSpec { n, base: Base::Random { pal: sigma, lo: 0 }, overlays: vec![], seed: k.seed() },
+                            pattern: PatSpec { base: PatBase::FromText { at: k.rng.below(n - plen + 1), len: plen }, subs_every: 0, seed: k.seed() },
+                            max_count: Bound::None,
+                            min_count: Bound::Abs(v),
+                            via_iter: false,
+                            serde: false,
+                        });
+                    }
+                    // (5) occurrences of one q-gram = v exactly: a run of v+q-1 equal symbols in a text that
+                    //     otherwise avoids that symbol; max_count = v-1 (masked), v, v+1 (kept) in turn, or v as
+                    //     an absolute bound with v and v+1 occurrences
+                    for variant in 0..3usize {
+                        if !heavy_ok || (big && t == Tier::Quick && variant != li % 3) {
+                            continue;
+                        }
+                        let (sigma, q) = [(5usize, 3u32), (4, 4), (3, 5), (9, 2)][k.rng.below(4)];
+                        let extra = if variant == 2 { 1 } else { 0 };
+                        let run = v + q as usize - 1 + extra;
+                        let n = run + 1500 + k.rng.below(500);
+                        let at = 600 + k.rng.below(300);
+                        let bound = match variant {
+                            0 => Bound::NearTop((li + rep) % 3),
+                            _ => Bound::Abs(v),
+                        };
+                        out.push(Case {
+                            alpha: k.alpha(sigma),
+                            q,
+                            text: TextSpec { n, base: Base::Random { pal: sigma - 1, lo: 1 }, overlays: vec![Overlay::Run { at, len: run, rank: 0 }], seed: k.seed() },
+                            // the pattern enters the run from the left: q-grams of the flank, mixed q-grams, and one or two copies of the run's q-gram
+                            pattern: PatSpec { base: PatBase::FromText { at: at - 6, len: 6 + q as usize + if big { 0 } else { 1 } }, subs_every: 0, seed: k.seed() },
+                            max_count: bound,
+                            min_count: Bound::Abs(1),
+                            via_iter: flip(&mut k),
+                            serde: false,
+                        });
+                    }
+                    // (6) two hit diagonals exactly v apart
+                    {
+                        let (sigma, q) = [(16usize, 4u32), (4, 8), (6, 5)][k.rng.below(3)];
+                        let n = v + 1200;
+                        let from = 100 + k.rng.below(300);
+                        out.push(Case {
+                            alpha: k.alpha(sigma),
+                            q,
+                            text: TextSpec { n, base: Base::Random { pal: sigma, lo: 0 }, overlays: vec![Overlay::Copy { from, to: from + v, len: 350 }], seed: k.seed() },
+                            pattern: PatSpec { base: PatBase::FromText { at: from, len: 350 }, subs_every: [0, 60][k.rng.below(2)], seed: k.seed() },
+                            max_count: Bound::None,
+                            min_count: Bound::Abs(2),
+                            via_iter: false,
+                            serde: false,
+                        });
+                    }
+                    // (7) homopolymer / tandem-repeat / ascending texts of length v: one q-gram (or a handful) with
+                    //     ~v occurrences, every diagonal hit
+                    {
+                        let which = (li + rep) % 3;
+                        let (sigma, q, base) = match which {
+                            0 => (1 + k.rng.below(4), 1 + k.rng.below(3) as u32, Base::Homopolymer { rank: k.rng.below(4) }),
+                            1 => (4, 2 + k.rng.below(3) as u32, Base::Periodic { period: 2 + k.rng.below(6), pal: 3 }),
+                            _ => ([7usize, 37, 256][k.rng.below(3)], 2, if flip(&mut k) { Base::Ascending } else { Base::Descending }),
+                        };
+                        // pattern length chosen so that the hits stay below ~3M (~1.2M for the largest texts)
+                        let per_gram = match which {
+                            0 => v,
+                            1 => v / 2 + 1,
+                            _ => v / sigma + 1,
+                        };
+                        let plen = ((if big { 1_200_000 } else { 3_000_000 }) / per_gram.max(1)).clamp(1, 60) + q as usize - 1;
+                        out.push(Case {
+                            alpha: k.alpha(sigma),
+                            q,
+                            text: TextSpec { n: v, base, overlays: vec![], seed: k.seed() },
+                            pattern: PatSpec { base: PatBase::FromText { at: k.rng.below(v), len: plen }, subs_every: 0, seed: k.seed() },
+                            max_count: if which == 0 && flip(&mut k) { Bound::NearTop(1 + k.rng.below(2)) } else { Bound::None },
+                            min_count: Bound::NearTop(k.rng.below(3)),
+                            via_iter: flip(&mut k),
+                            serde: false,
+                        });
+                    }
+                }
+                // (8) the largest address tables: q*bits = 24 (thorough only; 2 x 128 MiB of tables per build)
+                if t == Tier::Thorough {
+                    let mut k = Mk { rng: C1920Rng::new(seed ^ ((rep as u64) << 40) ^ 0x7ab1e) };
+                    for (sigma, q) in [(4usize, 12u32), (256, 3), (64, 4)] {
+                        let n = 300_000 + k.rng.below(100_000);
+                        out.push(Case {
+                            alpha: k.alpha(sigma),
+                            q,
+                            text: TextSpec { n, base: Base::Random { pal: sigma, lo: 0 }, overlays: vec![], seed: k.seed() },
+                            pattern: PatSpec { base: PatBase::FromText { at: k.rng.below(n - 5000), len: 5000 }, subs_every: 211, seed: k.seed() },
+                            max_count: Bound::None,
+                            min_count: Bound::Abs(2),
+                            via_iter: false,
+                            serde: false,
+                        });
+                    }
+                }
+            }
+            out
+        }
+    }
+
+    // -----------------------------------------------------------------------
+    // C19/large-sparse: k-mer match finding and chaining on long sequences / long match lists
+
+    pub mod sparse {
+        use super::*;
+        use bio::alignment::sparse::{
+            expand_kmer_matches, find_kmer_matches, find_kmer_matches_seq1_hashed, find_kmer_matches_seq2_hashed, hash_kmers, lcskpp, sdpkpp, sdpkpp_union_lcskpp_path,
+        };
+        use std::collections::BTreeMap;
+
+        #[derive(Serialize, Deserialize, Debug, Clone)]
+        pub enum SeqBase {
+            /// uniform over the first `pal` letters
+            Random { pal: usize },
+            /// a random unit of `period` letters repeated
+            Periodic { period: usize, pal: usize },
+            Homopolymer,
+        }
+
+        #[derive(Serialize, Deserialize, Debug, Clone)]
+        pub struct SeqSpec {
+            pub n: usize,
+            pub base: SeqBase,
+            pub seed: u64,
+        }
+
+        const LETTERS: &[u8] = b"ACGTNRYKMSWBDHVacgtnrykmswbdhv";
+
+        impl SeqSpec {
+            pub fn build(&self) -> Vec<u8> {
+                let mut rng = C1920Rng::new(self.seed);
+                match self.base {
+                    SeqBase::Random { pal } => rng.fill(&LETTERS[..pal.clamp(1, LETTERS.len())], self.n),
+                    SeqBase::Periodic { period, pal } => {
+                        let unit = rng.fill(&LETTERS[..pal.clamp(1, LETTERS.len())], period.max(1));
+                        (0..self.n).map(|i| unit[i % unit.len()]).collect()
+                    }
+                    SeqBase::Homopolymer => vec![b'A'; self.n],
+                }
+            }
+        }
+
+        #[derive(Serialize, Deserialize, Debug, Clone)]
+        pub enum Second {
+            Independent(SeqSpec),
+            /// the first sequence with `del` symbols removed at `at`, `ins` fresh symbols inserted there and
+            /// every `subs_every`-th symbol substituted (0 = never)
+            Edited { at: usize, del: usize, ins: usize, subs_every: usize, seed: u64 },
+        }
+
+        #[derive(Serialize, Deserialize, Debug, Clone)]
+        pub enum ListSpec {
+            /// the true k-mer matches of two sequences (also checks find_kmer_matches and the prehashed variants);
+            /// with drop_mod > 0 every entry whose index is a multiple of drop_mod is left out of the chained list
+            FromSeqs { s1: SeqSpec, s2: Second, swap: bool, drop_mod: usize },
+            /// (x0+i, y0+i), i < len: one run of continuations
+            Diagonal { x0: u32, y0: u32, len: usize },
+            /// all (i, j), i < a, j < b: the k-mer matches of two homopolymers
+            Grid { a: u32, b: u32 },
+            /// (x0 + i*dx, y0 + i*dy), i < len
+            Stairs { x0: u32, y0: u32, dx: u32, dy: u32, len: usize },
+            /// `len` distinct pseudo-random points in [0,w) x [0,h)
+            Random { w: u32, h: u32, len: usize, seed: u64 },
+            /// `runs` diagonal runs of `run_len` matches, run r starting at (r*dx, r*dy)
+            Runs { runs: usize, run_len: usize, dx: u32, dy: u32 },
+        }
+
+        #[derive(Serialize, Deserialize, Debug, Clone)]
+        pub struct Case {
+            pub list: ListSpec,
+            pub k: usize,
+            pub match_score: u32,
+            pub gap_open: i32,
+            pub gap_extend: i32,
+            pub allowed_mismatches: usize,
+            /// bit 0: sdpkpp, bit 1: sdpkpp_union_lcskpp_path, bit 2: expand_kmer_matches (FromSeqs only); lcskpp always
+            pub which: u8,
+        }
+
+        const PAIR_CAP: u64 = 3_000_000;
+
+        /// all pairs of equal k-mers, sorted; None when there would be more than PAIR_CAP.
+        /// k-mer starts of both sequences are sorted by the k-mer's content (slice comparison), equal
+        /// k-mers then form one group whose s1 x s2 product is emitted.
+        pub fn kmer_pairs(s1: &[u8], s2: &[u8], k: usize) -> Option<Vec<(u32, u32)>> {
+            let mut v = Vec::new();
+            if k == 0 || s1.len() < k || s2.len() < k {
+                return Some(v);
+            }
+            let (n1, n2) = (s1.len() - k + 1, s2.len() - k + 1);
+            // (sequence, position)
+            let mut ids: Vec<(u8, u32)> = (0..n1 as u32).map(|i| (0u8, i)).chain((0..n2 as u32).map(|j| (1u8, j))).collect();
+            let kmer = |e: &(u8, u32)| -> &[u8] {
+                if e.0 == 0 {
+                    &s1[e.1 as usize..e.1 as usize + k]
+                } else {
+                    &s2[e.1 as usize..e.1 as usize + k]
+                }
+            };
+            ids.sort_unstable_by(|a, b| kmer(a).cmp(kmer(b)).then(a.cmp(b)));
+            let mut total: u64 = 0;
+            let mut st = 0;
+            let mut groups: Vec<(usize, usize, usize)> = Vec::new(); // start, first index of sequence 1 entries, end
+            while st < ids.len() {
+                let mut en = st + 1;
+                while en < ids.len() && kmer(&ids[en]) == kmer(&ids[st]) {
+                    en += 1;
+                }
+                let mid = st + ids[st..en].iter().take_while(|e| e.0 == 0).count();
+                total += ((mid - st) as u64) * ((en - mid) as u64);
+                if total > PAIR_CAP {
+                    return None;
+                }
+                groups.push((st, mid, en));
+                st = en;
+            }
+            v.reserve(total as usize);
+            for (st, mid, en) in groups {
+                for a in &ids[st..mid] {
+                    for b in &ids[mid..en] {
+                        v.push((a.1, b.1));
+                    }
+                }
+            }
+            v.sort_unstable();
+            Some(v)
+        }
+
+        /// LCSk++ optimum of a strictly sorted match list in O(n log n): matches are visited in list order
+        /// (ascending x); a match j becomes a possible predecessor of a jump once x_j + k <= x_i, and is then
+        /// entered into a staircase (BTreeMap y_j + k -> best score with strictly increasing scores), which
+        /// answers "best score among predecessors with y_j + k <= y_i".
+        pub fn lcskpp_fast(m: &[(u32, u32)], k: u32) -> u32 {
+            let mut dp = vec![0u32; m.len()];
+            let mut stair: BTreeMap<u64, u32> = BTreeMap::new();
+            let mut j = 0usize;
+            let mut opt = 0u32;
+            for i in 0..m.len() {
+                let (x, y) = m[i];
+                while j < i && m[j].0 as u64 + k as u64 <= x as u64 {
+                    let (key, val) = (m[j].1 as u64 + k as u64, dp[j]);
+                    let dominated = stair.range(..=key).next_back().map_or(false, |(_, &v)| v >= val);
+                    if !dominated {
+                        let dead: Vec<u64> = stair.range(key..).take_while(|(_, &v)| v <= val).map(|(&kk, _)| kk).collect();
+                        for d in dead {
+                            stair.remove(&d);
+                        }
+                        stair.insert(key, val);
+                    }
+                    j += 1;
+                }
+                let mut b = k;
+                if let Some((_, &v)) = stair.range(..=y as u64).next_back() {
+                    b = b.max(v + k);
+                }
+                if x > 0 && y > 0 {
+                    if let Ok(c) = m[..i].binary_search(&(x - 1, y - 1)) {
+                        b = b.max(dp[c] + 1);
+                    }
+                }
+                dp[i] = b;
+                opt = opt.max(b);
+            }
+            opt
+        }
+
+        /// validity of a chain by the rule of the property; (score, jumps, continuations)
+        fn chain(m: &[(u32, u32)], path: &[usize], k: u32, what: &str, ctx: &str) -> Result<(u32, usize, usize), Stop> {
+            let (mut score, mut jumps, mut conts) = (0u32, 0usize, 0usize);
+            for (n, &ix) in path.iter().enumerate() {
+                ensure!(ix < m.len(), "{}: {} path (length {}) has index {} at step {} but there are {} matches", ctx, what, path.len(), ix, n, m.len());
+                if n == 0 {
+                    score += k;
+                    continue;
+                }
+                let (px, py) = m[path[n - 1]];
+                let (x, y) = m[ix];
+                let cont = x == px + 1 && y == py + 1;
+                let jump = x >= px + k && y >= py + k;
+                ensure!(
+                    cont || jump,
+                    "{}: {} path (length {}), step {}: match #{} {:?} after match #{} {:?} neither continues it diagonally by one nor starts >= k={} later in both sequences",
+                    ctx, what, path.len(), n, ix, (x, y), path[n - 1], (px, py), k
+                );
+                if cont {
+                    score += 1;
+                    conts += 1;
+                } else {
+                    score += k;
+                    jumps += 1;
+                }
+            }
+            Ok((score, jumps, conts))
+        }
+
+        type Built = (Vec<(u32, u32)>, Option<(Vec<u8>, Vec<u8>, Vec<(u32, u32)>)>);
+
+        /// None: more k-mer matches than the budget
+        fn build_list(l: &ListSpec, k: usize) -> Result<Option<Built>, Stop> {
+            Ok(Some(match l {
+                ListSpec::FromSeqs { s1, s2, swap, drop_mod } => {
+                    let a = s1.build();
+                    let b = match s2 {
+                        Second::Independent(sp) => sp.build(),
+                        Second::Edited { at, del, ins, subs_every, seed } => {
+                            let mut rng = C1920Rng::new(*seed);
+                            let at = (*at).min(a.len());
+                            let del = (*del).min(a.len() - at);
+                            let mut b = a[..at].to_vec();
+                            b.extend(rng.fill(&LETTERS[..4], *ins));
+                            b.extend_from_slice(&a[at + del..]);
+                            if *subs_every > 0 {
+                                let mut j = subs_every - 1;
+                                while j < b.len() {
+                                    b[j] = if b[j] == b'A' { b'C' } else { b'A' };
+                                    j += subs_every;
+                                }
+                            }
+                            b
+                        }
+                    };
+                    let (a, b) = if *swap { (b, a) } else { (a, b) };
+                    let Some(truth) = kmer_pairs(&a, &b, k) else {
+                        return Ok(None);
+                    };
+                    let list: Vec<(u32, u32)> = if *drop_mod > 0 { truth.iter().enumerate().filter(|(i, _)| i % drop_mod != 0).map(|(_, p)| *p).collect() } else { truth.clone() };
+                    (list, Some((a, b, truth)))
+                }
+                ListSpec::Diagonal { x0, y0, len } => ((0..*len as u32).map(|i| (x0 + i, y0 + i)).collect(), None),
+                ListSpec::Grid { a, b } => ((0..*a).flat_map(|i| (0..*b).map(move |j| (i, j))).collect(), None),
+                ListSpec::Stairs { x0, y0, dx, dy, len } => {
+                    ensure!(*dx >= 1, "harness: stairs must ascend in x");
+                    ((0..*len as u32).map(|i| (x0 + i * dx, y0 + i * dy)).collect(), None)
+                }
+                ListSpec::Random { w, h, len, seed } => {
+                    ensure!((*w as u64) * (*h as u64) >= 2 * *len as u64, "harness: box too small for {} distinct points", len);
+                    let mut rng = C1920Rng::new(*seed);
+                    let mut v: Vec<(u32, u32)> = Vec::with_capacity(*len + *len / 4);
+                    while v.len() < *len {
+                        let need = *len - v.len() + *len / 16 + 8;
+                        for _ in 0..need {
+                            v.push((rng.below(*w as usize) as u32, rng.below(*h as usize) as u32));
+                        }
+                        v.sort_unstable();
+                        v.dedup();
+                    }
+                    // thin out evenly down to exactly `len`
+                    let surplus = v.len() - *len;
+                    if surplus > 0 {
+                        let step = v.len() / surplus;
+                        let mut out = Vec::with_capacity(*len);
+                        let mut dropped = 0;
+                        for (i, p) in v.iter().enumerate() {
+                            if dropped < surplus && i % step == step - 1 {
+                                dropped += 1;
+                            } else {
+                                out.push(*p);
+                            }
+                        }
+                        v = out;
+                    }
+                    (v, None)
+                }
+                ListSpec::Runs { runs, run_len, dx, dy } => {
+                    let mut v: Vec<(u32, u32)> = (0..*runs as u32).flat_map(|r| (0..*run_len as u32).map(move |i| (r * dx + i, r * dy + i))).collect();
+                    v.sort_unstable();
+                    v.dedup();
+                    (v, None)
+                }
+            }))
+        }
+
+        pub fn check(c: &Case) -> R {
+            let k = c.k;
+            ensure!(k >= 1 && k < (1 << 24), "harness: k={}", k);
+            ensure!(c.gap_open <= 0 && c.gap_extend <= 0 && c.match_score >= 1, "harness: scoring outside the documented domain");
+            let ctx = format!("{:?}", c);
+            let mut pass = Pass::new(false);
+            let Some((m, seqs)) = build_list(&c.list, k)? else {
+                return Ok(pass.class("skipped: more k-mer matches than the budget of this sub-check"));
+            };
+            ensure!(m.windows(2).all(|w| w[0] < w[1]), "harness: match list not strictly sorted");
+            ensure!(m.iter().all(|&(x, y)| (x as u64) < (1 << 26) && (y as u64) < (1 << 26)), "harness: coordinates out of the intended range");
+
+            // ---- k-mer match finding
+            if let Some((s1, s2, truth)) = &seqs {
+                let cmp = |got: &[(u32, u32)], what: &str| -> Result<(), Stop> {
+                    if got != &truth[..] {
+                        let i = (0..got.len().min(truth.len())).find(|&i| got[i] != truth[i]).unwrap_or(got.len().min(truth.len()));
+                        crate::fail!(
+                            "{}: {} returns {} pairs, the sorted list of all equal k-mer pairs has {}; first difference at index {}: {:?} vs {:?}",
+                            ctx, what, got.len(), truth.len(), i, got.get(i), truth.get(i)
+                        );
+                    }
+                    Ok(())
+                };
+                cmp(&find_kmer_matches(s1, s2, k), "find_kmer_matches")?;
+                let h1 = hash_kmers(s1, k);
+                cmp(&find_kmer_matches_seq1_hashed(&h1, s2, k), "find_kmer_matches_seq1_hashed")?;
+                let h2 = hash_kmers(s2, k);
+                cmp(&find_kmer_matches_seq2_hashed(s1, &h2, k), "find_kmer_matches_seq2_hashed")?;
+                // the same hash tables reused for a second, shorter partner: a prefix of the other sequence
+                let cut2 = s2.len().min(k + 300);
+                let sub: Vec<(u32, u32)> = truth.iter().copied().filter(|&(_, y)| y as usize + k <= cut2).collect();
+                let got = find_kmer_matches_seq1_hashed(&h1, &s2[..cut2], k);
+                ensure!(got == sub, "{}: find_kmer_matches_seq1_hashed with the hash table reused for the prefix s2[..{}] returns {} pairs, expected {}", ctx, cut2, got.len(), sub.len());
+                let cut1 = s1.len().min(k + 300);
+                let sub: Vec<(u32, u32)> = truth.iter().copied().filter(|&(x, _)| x as usize + k <= cut1).collect();
+                let got = find_kmer_matches_seq2_hashed(&s1[..cut1], &h2, k);
+                ensure!(got == sub, "{}: find_kmer_matches_seq2_hashed with the hash table reused for the prefix s1[..{}] returns {} pairs, expected {}", ctx, cut1, got.len(), sub.len());
+                let top_bucket = h1.values().chain(h2.values()).map(|v| v.len()).max().unwrap_or(0);
+                add_band(&mut pass, &c1920_bands!("sequence length"), s1.len());
+                add_band(&mut pass, &c1920_bands!("sequence length"), s2.len());
+                add_band(&mut pass, &c1920_bands!("occurrences of one k-mer"), top_bucket);
+                add_over(&mut pass, &c1920_over!("occurrences of one k-mer"), top_bucket);
+                add_over(&mut pass, &c1920_over!("k-mer matches found"), truth.len());
+                add_band(&mut pass, &c1920_bands!("k (match finding)"), k);
+                pass.add_if(s1.len() < s2.len(), "s1 shorter (seq1 hashed)");
+                pass.add_if(s1.len() >= s2.len(), "s2 not longer (seq2 hashed)");
+            }
+
+            // ---- chaining
+            let k32 = k as u32;
+            let opt = lcskpp_fast(&m, k32);
+            if m.len() <= 2500 {
+                let quad = super::super::sparse::lcskpp_optimum(&m, k32);
+                ensure!(quad == opt, "harness: the O(n log n) LCSk++ reference gives {} but the quadratic recurrence {} for {}", opt, quad, ctx);
+                pass.add("fast reference cross-checked against the quadratic recurrence");
+            }
+            // analytic optimum of the structured lists
+            let analytic: Option<u32> = match c.list {
+                ListSpec::Diagonal { len, .. } if len > 0 => Some(k32 + len as u32 - 1),
+                ListSpec::Grid { a, b } if a > 0 && b > 0 => Some(k32 + a.min(b) - 1),
+                ListSpec::Stairs { dx, dy, len, .. } if len > 0 && dx >= k32 && dy >= k32 => Some(k32 * len as u32),
+                ListSpec::Stairs { dx: 1, dy: 1, len, .. } if len > 0 => Some(k32 + len as u32 - 1),
+                _ => None,
+            };
+            if let Some(a) = analytic {
+                ensure!(a == opt, "harness: the O(n log n) LCSk++ reference gives {} but the optimum of this structured list is {}: {}", opt, a, ctx);
+                pass.add("optimum known analytically");
+            }
+            let r = lcskpp(&m, k);
+            let (score, jumps, conts) = chain(&m, &r.path, k32, "lcskpp", &ctx)?;
+            ensure!(r.score == score || (m.is_empty() && r.score == 0), "{}: lcskpp reports score {} but its path (length {}) scores {} (k per start, +1 per continuation)", ctx, r.score, r.path.len(), score);
+            ensure!(r.score == opt, "{}: lcskpp score {} (path of {} matches over a list of {}), optimum of the LCSk++ recurrence {}", ctx, r.score, r.path.len(), m.len(), opt);
+            if m.is_empty() {
+                ensure!(r.path.is_empty(), "{}: lcskpp path of length {} over an empty match list", ctx, r.path.len());
+            }
+            let mut sd_len = None;
+            if c.which & 1 != 0 {
+                let s = sdpkpp(&m, k, c.match_score, c.gap_open, c.gap_extend);
+                chain(&m, &s.path, k32, "sdpkpp", &ctx)?;
+                pass.add_if(s.path != r.path, "sdpkpp path differs from the lcskpp path");
+                sd_len = Some(s.path.len());
+                add_over(&mut pass, &c1920_over!("sdpkpp path length"), s.path.len());
+            }
+            if c.which & 2 != 0 {
+                let u = sdpkpp_union_lcskpp_path(&m, k, c.match_score, c.gap_open, c.gap_extend);
+                chain(&m, &u, k32, "sdpkpp_union_lcskpp_path", &ctx)?;
+                pass.add_if(sd_len.map_or(false, |l| u.len() > l), "union path longer than the sdpkpp path");
+                pass.add("union path checked");
+            }
+            // ---- expansion
+            if let (true, Some((s1, s2, _))) = (c.which & 4 != 0, &seqs) {
+                let e = expand_kmer_matches(s1, s2, k, &m, c.allowed_mismatches);
+                if let Some(i) = (1..e.len()).find(|&i| e[i - 1] >= e[i]) {
+                    crate::fail!("{}: expand_kmer_matches is not strictly sorted at index {}: {:?} then {:?}", ctx, i, e[i - 1], e[i]);
+                }
+                let mut it = e.iter().peekable();
+                for p in &m {
+                    while it.peek().map_or(false, |x| *x < p) {
+                        it.next();
+                    }
+                    ensure!(it.peek() == Some(&p), "{}: expand_kmer_matches ({} entries): the input match {:?} is missing", ctx, e.len(), p);
+                }
+                for &(x, y) in &e {
+                    ensure!(x as usize + k <= s1.len() && y as usize + k <= s2.len(), "{}: expand_kmer_matches: ({}, {}) does not leave room for a k-mer", ctx, x, y);
+                    let mm = (0..k).filter(|&d| s1[x as usize + d] != s2[y as usize + d]).count();
+                    ensure!(mm <= c.allowed_mismatches, "{}: expand_kmer_matches: k-mers at ({}, {}) differ in {} positions although all input matches are exact", ctx, x, y, mm);
+                }
+                let opt_e = lcskpp_fast(&e, k32);
+                let re = lcskpp(&e, k);
+                let (score, _, _) = chain(&e, &re.path, k32, "lcskpp on the expanded list", &ctx)?;
+                ensure!(re.score == score && re.score == opt_e, "{}: lcskpp on the expanded list ({} matches): reported score {}, path score {}, optimum {}", ctx, e.len(), re.score, score, opt_e);
+                pass.add_if(e.len() > m.len(), "expansion added matches");
+                add_over(&mut pass, &c1920_over!("expanded list length"), e.len());
+            }
+
+            let extent = m.iter().map(|&(x, y)| x.max(y) as usize + k).max().unwrap_or(0);
+            pass.nontrivial = jumps >= 1 && conts >= 1 && m.len() > 255;
+            add_band(&mut pass, &c1920_bands!("match list length"), m.len());
+            add_band(&mut pass, &c1920_bands!("largest coordinate + k"), extent);
+            add_band(&mut pass, &c1920_bands!("k (chaining)"), k);
+            add_band(&mut pass, &c1920_bands!("lcskpp path length"), r.path.len());
+            add_over(&mut pass, &c1920_over!("lcskpp path length"), r.path.len());
+            add_over(&mut pass, &c1920_over!("continuations in the lcskpp chain"), conts);
+            add_over(&mut pass, &c1920_over!("jumps in the lcskpp chain"), jumps);
+            add_over(&mut pass, &c1920_over!("match list length"), m.len());
+            pass.add_if(jumps >= 1 && conts >= 1, "lcskpp chain with >=1 jump and >=1 continuation");
+            pass.add_if(matches!(c.list, ListSpec::Random { .. }), "random point list");
+            pass.add_if(matches!(c.list, ListSpec::Grid { .. }), "grid (homopolymer) list");
+            Ok(pass)
+        }
+
+        /// rough cost for balancing the shards
+        pub fn cost(c: &Case) -> u64 {
+            let passes = 1 + (c.which & 1) as u64 + 2 * (c.which >> 1 & 1) as u64 + 2 * (c.which >> 2 & 1) as u64;
+            let len = match &c.list {
+                ListSpec::FromSeqs { s1, .. } => 6 * s1.n as u64 + if matches!(s1.base, SeqBase::Periodic { .. }) { (s1.n as u64).pow(2) / 4 } else { 0 } + if c.k > 64 { (s1.n * c.k / 8) as u64 } else { 0 },
+                ListSpec::Diagonal { len, .. } | ListSpec::Stairs { len, .. } | ListSpec::Random { len, .. } => *len as u64,
+                ListSpec::Grid { a, b } => *a as u64 * *b as u64,
+                ListSpec::Runs { runs, run_len, .. } => (*runs * *run_len) as u64,
+            };
+            len * passes + 2000
+        }
+
+        pub fn cases(t: Tier, seed: u64) -> Vec<Case> {
+            let mut out: Vec<Case> = Vec::new();
+            let reps = if t == Tier::Quick { 1 } else { 5 };
+            let ladder = c1920_ladder();
+            for rep in 0..reps {
+                for (li, &v) in ladder.iter().enumerate() {
+                    let mut rng = C1920Rng::new(seed ^ ((rep as u64) << 40) ^ ((li as u64) << 20) ^ 0x5ba75e);
+                    let huge = v > 140_000;
+                    let scoring = |rng: &mut C1920Rng| (1 + rng.below(3) as u32, -(rng.below(5) as i32), -(rng.below(3) as i32));
+                    let mut push = |list: ListSpec, k: usize, which: u8, rng: &mut C1920Rng| {
+                        let (match_score, gap_open, gap_extend) = scoring(rng);
+                        out.push(Case { list, k, match_score, gap_open, gap_extend, allowed_mismatches: rng.below(3), which });
+                    };
+                    let full = if huge { [1u8, 1, 2][(li + rep) % 3] } else { 3 };
+                    let k = 2 + rng.below(9);
+                    // (1) list length = lcskpp path length = v: one diagonal; ending exactly at coordinate v as well
+                    push(ListSpec::Diagonal { x0: rng.below(50) as u32, y0: rng.below(50) as u32, len: v }, k, full, &mut rng);
+                    // (2) list length = v: random points in a box about 4..40 times larger
+                    {
+                        let w = (((v as f64) * (4.0 + rng.below(36) as f64)).sqrt() as u32).max(40);
+                        push(ListSpec::Random { w, h: w + rng.below(50) as u32, len: v, seed: rng.next() >> 11 }, 1 + rng.below(6), full, &mut rng);
+                    }
+                    // (3) largest coordinate + k = v exactly (size of the Fenwick tree): stairs that end there
+                    {
+                        let k = 1 + rng.below(12);
+                        let len = (v - k) / (k + 1) + 1;
+                        let dx = k as u32 + rng.below(2) as u32;
+                        let last = (len as u32 - 1) * dx;
+                        let x0 = (v - k) as u32 - last;
+                        push(ListSpec::Stairs { x0, y0: 0, dx, dy: k as u32, len }, k, 3, &mut rng);
+                    }
+                    // (4) k = v (chaining): a few stairs / runs with huge k
+                    {
+                        let len = if huge { 2 } else { 3 + rng.below(4) };
+                        push(ListSpec::Runs { runs: len, run_len: 3, dx: v as u32 + rng.below(2) as u32, dy: v as u32 }, v, 3, &mut rng);
+                    }
+                    // (5) grid of v..v+b entries (two homopolymers): dense, every entry continues another
+                    if !huge {
+                        let b = 3 + rng.below(30) as u32;
+                        let a = (v as u32).div_ceil(b);
+                        push(ListSpec::Grid { a, b }, 1 + rng.below(5), 3, &mut rng);
+                    }
+                    // (6) several long diagonal runs (jumps between runs and long continuation stretches)
+                    {
+                        let runs = 2 + rng.below(6);
+                        let run_len = v / runs + 1;
+                        push(ListSpec::Runs { runs, run_len, dx: (run_len / 2 + rng.below(run_len)) as u32, dy: (run_len / 3 + rng.below(run_len)) as u32 }, k, full, &mut rng);
+                    }
+                    // (7) sequences of length v: a random sequence against an edited copy (one indel, sparse substitutions);
+                    //     up to 131073 for every ladder value, 2^19+1 once in the quick tier, 2^19.. and 2^20+1 in the thorough tier
+                    if !huge || (t == Tier::Quick && v == (1 << 19) + 1) || (t == Tier::Thorough && v <= (1 << 19) + 1) || (t == Tier::Thorough && rep == 0 && v == (1 << 20) + 1) {
+                        let k = if v > 300_000 { 12 } else if v > 20_000 { 10 } else { 6 + rng.below(4) };
+                        let s1 = SeqSpec { n: v, base: SeqBase::Random { pal: 4 }, seed: rng.next() >> 11 };
+                        let s2 = Second::Edited { at: rng.below(v), del: rng.below(40), ins: rng.below(40), subs_every: [0, 977, 211][rng.below(3)], seed: rng.next() >> 11 };
+                        push(ListSpec::FromSeqs { s1, s2, swap: rng.below(2) == 0, drop_mod: [0, 7][rng.below(2)] }, k, if huge { 0 } else { 7 }, &mut rng);
+                    }
+                    // (8) occurrences of one k-mer = v: a homopolymer of v+k-1 symbols against a short one
+                    {
+                        let k = 1 + rng.below(6);
+                        let s1 = SeqSpec { n: v + k - 1, base: SeqBase::Homopolymer, seed: 0 };
+                        let short = SeqSpec { n: k + rng.below(2), base: SeqBase::Homopolymer, seed: 0 };
+                        push(ListSpec::FromSeqs { s1, s2: Second::Independent(short), swap: rng.below(2) == 0, drop_mod: 0 }, k, if huge { 0 } else { 3 }, &mut rng);
+                    }
+                    // (9) tandem repeats of total length ~v against a copy with an insertion: ~v*v/(2*period) matches, capped by the length
+                    if v <= 8193 {
+                        let period = 2 + rng.below(12);
+                        let n = v.min(700);
+                        let s1 = SeqSpec { n, base: SeqBase::Periodic { period, pal: 4 }, seed: rng.next() >> 11 };
+                        let s2 = Second::Edited { at: rng.below(n), del: 0, ins: 1 + rng.below(5), subs_every: 0, seed: rng.next() >> 11 };
+                        push(ListSpec::FromSeqs { s1, s2, swap: false, drop_mod: 0 }, 3 + rng.below(6), 7, &mut rng);
+                    }
+                    // (10) k = v for match finding (k-mers of v symbols): sequences of ~2v symbols over two letters
+                    if v <= 8193 || (t == Tier::Thorough && v <= 32769) {
+                        // (random: ~v k-mers per sequence; periodic / homopolymer: a few dozen, all of them matching)
+                        let base = [SeqBase::Random { pal: 2 }, SeqBase::Periodic { period: 3 + rng.below(5), pal: 2 }, SeqBase::Homopolymer][(li + rep) % 3].clone();
+                        let n = if matches!(base, SeqBase::Random { .. }) { 2 * v + rng.below(40) } else { v + 10 + rng.below(30) };
+                        let s1 = SeqSpec { n, base, seed: rng.next() >> 11 };
+                        let s2 = Second::Edited { at: rng.below(v), del: 0, ins: rng.below(2), subs_every: 0, seed: rng.next() >> 11 };
+                        push(ListSpec::FromSeqs { s1, s2, swap: rng.below(2) == 0, drop_mod: 0 }, v, 3, &mut rng);
+                    }
+                }
+            }
+            out
+        }
+    }
+}
+
+/// every band of the given parameters (the first `upto` bands of each) plus single labels, as a static list
+fn large_must(bands: &[(&[&'static str; 12], usize)], singles: &[&'static str]) -> &'static [&'static str] {
+    let mut v: Vec<&'static str> = Vec::new();
+    for (labels, upto) in bands {
+        v.extend(labels[..*upto].iter().copied());
+    }
+    v.extend(singles.iter().copied());
+    Box::leak(v.into_boxed_slice())
+}
+
 pub fn property() -> Property {
     Property {
         id: "C19",
-        rule: "alphabets of 1..=9, 16, 37 and 256 symbols (letters in rank order or arbitrary bytes in arbitrary order), sequences assembled from fresh symbols (whole alphabet or a palette of 1-4 of its letters) and copies of earlier stretches. codes: q up to the word limit q*ceil(log2|A|) <= 64, qgrams() count, equal code <=> equal q-gram, rev_qgrams() reversed = qgrams(). index: q*ceil(log2|A|) <= 16, text 0..=40, pattern 0..=16 built from stretches of the text, max_count in {none,0,1,2,3}, min_count 1..=3; qgram_matches for every q-gram of text, pattern and random probes against a naive scan (empty when more than max_count); matches() against per-diagonal first/last hit and hit count; exact_matches() against maximal equal runs of length >= q on every diagonal (with max_count: maximal runs of unmasked hits); compared as sorted lists. Plus every (text <= 5, pattern <= 4) over {a,b,c} with q = 2. sparse: pairs over 1..=4 letters, length 0..=30 (independent or edited stretch), k 1..=8; find_kmer_matches and both prehashed variants = naive sorted pair list; match lists = the true list, subsets, arbitrary strictly sorted pairs; lcskpp path valid by the chain rule, reported score = path score = optimum of the quadratic LCSk++ recurrence; sdpkpp and union path valid chains; expand_kmer_matches (in-range lists) strictly sorted, superset, in range, within allowed_mismatches when the seeds are exact, and all chain checks again on the expanded list. Non-trivial = codes/index: |A| not a power of two, q >= 2 and >= 2 distinct q-grams / >= 1 hit; sparse: an optimal chain with >= 1 jump and >= 1 continuation (k >= 2). Distinct = distinct serialised cases.",
+        rule: "alphabets of 1..=9, 16, 37 and 256 symbols (letters in rank order or arbitrary bytes in arbitrary order), sequences assembled from fresh symbols (whole alphabet or a palette of 1-4 of its letters) and copies of earlier stretches. codes: q up to the word limit q*ceil(log2|A|) <= 64, qgrams() count, equal code <=> equal q-gram, rev_qgrams() reversed = qgrams(). index: q*ceil(log2|A|) <= 16, text 0..=40, pattern 0..=16 built from stretches of the text, max_count in {none,0,1,2,3}, min_count 1..=3; qgram_matches for every q-gram of text, pattern and random probes against a naive scan (empty when more than max_count); matches() against per-diagonal first/last hit and hit count; exact_matches() against maximal equal runs of length >= q on every diagonal (with max_count: maximal runs of unmasked hits); compared as sorted lists. Plus every (text <= 5, pattern <= 4) over {a,b,c} with q = 2. sparse: pairs over 1..=4 letters, length 0..=30 (independent or edited stretch), k 1..=8; find_kmer_matches and both prehashed variants = naive sorted pair list; match lists = the true list, subsets, arbitrary strictly sorted pairs; lcskpp path valid by the chain rule, reported score = path score = optimum of the quadratic LCSk++ recurrence; sdpkpp and union path valid chains; expand_kmer_matches (in-range lists) strictly sorted, superset, in range, within allowed_mismatches when the seeds are exact, and all chain checks again on the expanded list. Non-trivial = codes/index: |A| not a power of two, q >= 2 and >= 2 distinct q-grams / >= 1 hit; sparse: an optimal chain with >= 1 jump and >= 1 continuation (k >= 2). Distinct = distinct serialised cases. LARGE-SCALE (C19/large-codes, large-index, large-sparse): a deterministic list of parameter records (sizes fixed by the ladder 255,256,257, 511..513, 1023..1025, 4095..4097, 8191..8193, 16383..16385, 32767..32769, 65535..65537, 70000, 131071..131073, 2^19-1..2^19+1, 2^20-1..2^20+1; contents from the run seed via splitmix64), spread over worker shards, every ladder value in every run. large-codes: text length on the ladder for |A| in {1,2,3,4,5,16,37,200,256} with q*bits in {0,8,16,32,60,63,64}, random / tandem-repeat / ascending / homopolymer texts; equal code <=> equal q-gram against a base-|A| encoding of the ranks, q-gram alone = in text at sampled positions, rev_qgrams reversed = qgrams. large-index: per ladder value v: text length v (dense: 2-4 letters, q 1-2, nearly every diagonal hit; and over a 16..20-bit code space), pattern length = longest exact match = v, hits on one diagonal = min_count = v (and v-1: filtered), occurrences of one q-gram = v with max_count = v-1 / v / v+1, two hit diagonals exactly v apart, homopolymer / tandem-repeat / ascending texts of length v; index built from the slice or from an iterator, optionally restored through serde; oracle: q-gram positions by sorting (q-gram, position), qgram_matches for every q-gram of the text and 200 random probes, per-diagonal first/last hit, hit count and maximal runs of consecutive hits in dense arrays (cross-checked against a direct scan of the two sequences when |text|*|pattern| <= 2^22), compared as sorted lists; at most 8M hits per case. large-sparse: per ladder value v: match list length v (one diagonal, random points), largest coordinate + k = v (Fenwick tree size), k = v, grids (two homopolymers), several long runs, sequences of length v against an edited copy (find_kmer_matches and both prehashed variants, hash tables reused for a second partner, against all pairs of equal k-mers found by sorting the k-mer starts), one k-mer occurring v times, tandem repeats, k-mers of v symbols; lcskpp path valid, reported score = path score = optimum of an O(n log n) LCSk++ recurrence (BTreeMap staircase; cross-checked against the quadratic recurrence for lists <= 2500 and against the analytic optimum of diagonal / grid / stair lists), sdpkpp and union paths valid chains, expand_kmer_matches strictly sorted / superset / in range / within allowed_mismatches and lcskpp optimal on the expanded list.",
         assumptions: &[
+            "large-scale sub-checks: q*ceil(log2|A|) <= 20 for the index in the quick tier (24 in the thorough tier: two tables of 2^24 words per build); pattern length, min_count, hits on one diagonal and longest exact match reach 2^19+1 (one value of that band) in the quick tier and every value up to 2^20+1 in the thorough tier (a pattern of 2^20 symbols costs several seconds); occurrences of one q-gram and max_count reach 2^19+1 and 2^20+1 in the quick tier (one value per band), all in the thorough tier; sequences for find_kmer_matches reach 131073 for every ladder value, 2^19+1 once in the quick tier, 2^20+1 in the thorough tier; k for match finding reaches 8193 (32769 thorough) because hashing all k-mers costs n*k; coordinates stay below 2^26",
             "texts, patterns and probes are over the alphabet the index was built with (other symbols are documented to panic)",
             "q >= 1 and q*ceil(log2|A|) <= 64 (asserted by qgrams); for the index q*ceil(log2|A|) <= 16 because the address table has 2^(q*bits) words",
             "min_count >= 1; with max_count set, matches/exact_matches are specified over the unmasked q-gram hits",
@@ -801,6 +2136,84 @@ pub fn property() -> Property {
                 watch: false,
             }),
             Box::new(ExhSub { name: "C19/index-abc-q2", enumerate: index::enumerate, check: index::check, must_reach: &["diagonal with text pos < pattern pos"] }),
+            Box::new(crate::oracles::scale::C1920LadderSub {
+                name: "C19/large-codes",
+                cases: large::codes::cases,
+                check: large::codes::check,
+                cost: |c| c.text.n as u64,
+                shards_quick: 4,
+                shards_thorough: 8,
+                must_reach: large_must(&[(&crate::c1920_bands!("text length"), 12)], &["q*bits = 64", "q*bits = 32", "q*bits = 16", "q*bits in 33..63", "|A|=256", "|A|=1", "|A| not a power of two", "homopolymer", "tandem repeat"]),
+            }),
+            Box::new(crate::oracles::scale::C1920LadderSub {
+                name: "C19/large-index",
+                cases: large::index::cases,
+                check: large::index::check,
+                cost: large::index::cost,
+                shards_quick: 16,
+                shards_thorough: 16,
+                must_reach: large_must(
+                    &[
+                        (&crate::c1920_bands!("text length"), 12),
+                        (&crate::c1920_bands!("pattern length"), 11),
+                        (&crate::c1920_bands!("occurrences of one q-gram"), 12),
+                        (&crate::c1920_bands!("longest exact match"), 11),
+                        (&crate::c1920_bands!("hits on one diagonal"), 11),
+                        (&crate::c1920_bands!("max_count"), 12),
+                        (&crate::c1920_bands!("min_count"), 11),
+                        (&crate::c1920_bands!("distance between two hit diagonals"), 12),
+                    ],
+                    &[
+                        "distinct diagonals with hits > 65536",
+                        "hits > 65536",
+                        "exact matches returned > 65536",
+                        "occurrences of one q-gram > 65536",
+                        "max_count = top occurrences (just kept)",
+                        "max_count = top occurrences - 1 (just masked)",
+                        "min_count = top diagonal count (just kept)",
+                        "min_count = top diagonal count + 1 (just filtered)",
+                        "two exact matches on one diagonal",
+                        "diagonal with text pos < pattern pos",
+                        "index built from an iterator",
+                        "homopolymer text",
+                        "tandem-repeat text",
+                        "q*bits = 16",
+                        "q*bits in 17..20",
+                    ],
+                ),
+            }),
+            Box::new(crate::oracles::scale::C1920LadderSub {
+                name: "C19/large-sparse",
+                cases: large::sparse::cases,
+                check: large::sparse::check,
+                cost: large::sparse::cost,
+                shards_quick: 16,
+                shards_thorough: 16,
+                must_reach: large_must(
+                    &[
+                        (&crate::c1920_bands!("match list length"), 12),
+                        (&crate::c1920_bands!("largest coordinate + k"), 12),
+                        (&crate::c1920_bands!("k (chaining)"), 12),
+                        (&crate::c1920_bands!("lcskpp path length"), 12),
+                        (&crate::c1920_bands!("occurrences of one k-mer"), 12),
+                        (&crate::c1920_bands!("sequence length"), 11),
+                        (&crate::c1920_bands!("k (match finding)"), 5),
+                    ],
+                    &[
+                        "match list length > 2^20",
+                        "k-mer matches found > 65536",
+                        "continuations in the lcskpp chain > 65536",
+                        "jumps in the lcskpp chain > 65536",
+                        "expanded list length > 65536",
+                        "sdpkpp path length > 65536",
+                        "union path checked",
+                        "fast reference cross-checked against the quadratic recurrence",
+                        "optimum known analytically",
+                        "random point list",
+                        "grid (homopolymer) list",
+                    ],
+                ),
+            }),
             Box::new(PropSub {
                 name: "C19/sparse",
                 quick: 200_000,
